@@ -82,7 +82,8 @@ CHECKS = {
              "kind, else raises; dimension = sum of the symbols' dimensions and SI scale = product of the symbols' SI values "
              "(C06 SI spec) to the signed exponents; whole result invariant under a/b <-> a.b-1 and under factor order), "
              "u-spelling, one rejection theorem per class of the statement (unknown symbol, doubled / dangling separator, signed "
-             "positive, fractional / misplaced exponent, embedded blank on the raw text, two units of one base kind, value not "
+             "positive, fractional / misplaced / exotic exponent (strict ASCII -?[0-9]+ reader: underscores, non-ASCII digits, inner "
+             "or dangling signs), embedded blank on the raw text, two units of one base kind, value not "
              "separated, non-numeric value, blank inside a quantity's units — all on the raw text; unknown symbol and two units "
              "on the factor blocks after the u->µ chain). Tie: translator G1/G2 + UnitsText + "
              "correspondence (all 1-factor strings, all symbol pairs x both separators, random 3-factor strings, round trips, "
